@@ -7,8 +7,7 @@
      Inv04 w                 IndexExact + duplicate-free keys for every model (+ typing side invariants)
    Hypotheses: TablesOK (facts about the specification tables), TreeFacts w (= C03's TreeInv, see
    Tree/IndexProofsBridge.v).  Known04 = finding classes (witnesses below), Pending04 = constructors whose proof is
-   not finished: OpCopy OpCopyAt OpMove OpMoveAt OpSetItemName OpRemoveFile OpRemoveFromFile and
-   OpSetCData on a SHORT-NAME element that already has text.
+   not finished: OpCopy OpCopyAt OpMove OpMoveAt OpSetItemName OpRemoveFile OpRemoveFromFile.
    [P] C04_inv_partial, C04_history_partial, C04_reachable_partial   [U] C04_lookup, C04_enumeration,
    C04_unique_paths, C04_path_concat, C04_rekey (the prefix re-keying loop of fix_identifiables). *)
 From AV Require Import Base.Bytes Base.Outcome Hash.HashModel Tree.Heap Tree.Ops Tree.Script Tree.Inv.
@@ -22,7 +21,7 @@ Theorem C04_inv_partial :
          (root_attrs : list (N * cdata)),
   TablesOK T check_fn ->
   forall (w : world) (o : op) (r : out value) (w' : world),
-  TreeFacts w -> Inv04 T check_fn w -> Known04 T LATEST w o = false -> Pending04 T w o = false ->
+  TreeFacts w -> Inv04 T check_fn w -> Known04 T LATEST w o = false -> Pending04 w o = false ->
   run_op T tab_el tab_en check_fn LATEST root_attrs o w = Val (r, w') -> Inv04 T check_fn w'.
 Proof. exact IndexProofs.C04_inv_partial. Qed.
 
